@@ -196,6 +196,7 @@ func ttxUnit(unitID byte, framing byte, mag, packet int, payload [40]byte) []byt
 
 type ttxHeaderFlags struct {
 	erase, subtitle, serial bool
+	newsflash               bool // C5
 	charset                 int // C12 + 2*C13 + 4*C14
 }
 
@@ -216,7 +217,7 @@ func ttxHeaderNibbles(tens, units int, f ttxHeaderFlags) (p [40]byte) {
 	p[2] = ham84(0)
 	p[3] = ham84(b(f.erase, 3))
 	p[4] = ham84(0)
-	p[5] = ham84(b(f.subtitle, 3))
+	p[5] = ham84(b(f.subtitle, 3) | b(f.newsflash, 2))
 	p[6] = ham84(0)
 	p[7] = ham84(b(f.serial, 0) | byte(f.charset&7)<<1)
 	for i := 8; i < 40; i++ {
